@@ -140,7 +140,7 @@ pub fn check(s: &'static dyn Proto, c: &Case, st: &mut Stats, known: &KnownFindi
 }
 
 pub const BUDGET: Budget = Budget {
-    quick: (4, 4, 3),
+    quick: (16, 16, 10),
     thorough: (20, 20, 12),
     shrink: 4,
 };
